@@ -23,12 +23,24 @@ Lower(b) == IF b \in 65..90 THEN b + 32 ELSE b
 LowerSeq(s) == [i \in 1..Len(s) |-> Lower(s[i])]
 Sub(s, a, b) == SubSeq(s, a, b)
 
-RECURSIVE SplitOn(_, _, _, _)
-SplitOn(s, b, i, start) ==
-  IF i > Len(s) THEN <<Sub(s, start, Len(s))>>
-  ELSE IF s[i] = b THEN <<Sub(s, start, i-1)>> \o SplitOn(s, b, i+1, i+1)
-  ELSE SplitOn(s, b, i+1, start)
-Split(s, b) == SplitOn(s, b, 1, 1)
+\* TLC evaluates operator arguments and LET definitions lazily and may re-evaluate them at every
+\* use.  Force(F, a) evaluates `a` once, binds the value, and applies F to it.
+Force(F(_), a) == CHOOSE r \in {F(x) : x \in {a}} : TRUE
+
+\* Deep recursion is quadratic in TLC (variable look-up walks the context chain), so scanning
+\* operators are written with set comprehensions instead of recursion over the index.
+\* the indices i in 1..n satisfying P, ascending (SelectSeq is evaluated natively)
+IndicesWhere(n, P(_)) == SelectSeq([i \in 1..n |-> i], P)
+\* s cut at the separators of width w that start at the ascending positions q (separators must not overlap)
+SplitAtSorted(s, q, w) == [k \in 1..(Len(q) + 1) |-> SubSeq(s, IF k = 1 THEN 1 ELSE q[k-1] + w, IF k = Len(q) + 1 THEN Len(s) ELSE q[k] - 1)]
+SplitAt(s, qexpr, w) == Force(LAMBDA q : SplitAtSorted(s, q, w), qexpr)
+Split(s, b) == SplitAt(s, IndicesWhere(Len(s), LAMBDA i : s[i] = b), 1)
+\* lines of s separated by CRLF (CRLF cannot overlap itself)
+SplitCRLF(s) == SplitAt(s, IndicesWhere(Len(s) - 1, LAMBDA i : s[i] = CR /\ s[i+1] = LF), 2)
+\* position of the first CRLFCRLF in s, 0 if none
+MinOf(P) == CHOOSE x \in P : \A y \in P : x <= y
+FindCrlfCrlf(s) == LET P == {i \in 1..(Len(s) - 3) : s[i] = CR /\ s[i+1] = LF /\ s[i+2] = CR /\ s[i+3] = LF}
+                   IN IF P = {} THEN 0 ELSE MinOf(P)
 
 IsBlank(b) == b \in {SP, HT, 10, 11, 12, 13}          \* what Rust str::trim strips within ASCII
 RECURSIVE LTrimBy(_, _)
